@@ -724,7 +724,12 @@ class SInt(object):
 
     # ---- places where a concrete value is required: fork over all feasible values
     def __hash__(s):
-        return hash(cur().concretize(s.t, limit=cur().hash_limit))
+        c = cur()
+        if c.hash_limit == 0:
+            # the obligation declares that symbolic values are only *stored* as dict keys
+            # (single-entry containers), never looked up: hash by term identity
+            return s.t.hash()
+        return hash(c.concretize(s.t, limit=c.hash_limit))
 
     def __bool__(s):
         if s.lo > 0 or s.hi < 0:
